@@ -190,7 +190,7 @@ class Stepper(object):
 
     def _complete(self, out):
         a = self.actor
-        for v in a.check_invariants(self.pc):
+        for v in a.check_invariants(self.pc, ended_in_exception=(out.get("k") == "raised" or bool(out.get("exc")))):
             v["op"] = self.program[self.pc]["op"]
             self.violations.append(v)
         self.outcomes.append(out)
